@@ -383,6 +383,10 @@ impl CustomAddr {
     }
 }
 
+#[cfg(kani)]
+#[path = "/verif/kani/iroh_base/endpoint_addr.rs"]
+mod verif_kani;
+
 #[cfg(test)]
 mod tests {
     use super::*;
